@@ -37,6 +37,10 @@ CHECKS = {
             "technique": "property-based testing (rapid) on a real filesystem; differential against an independent lstat/readlink/sha walk",
             "note": "Trusted: kit/disk's observer and expectation model; runs as root on ext4 (executability-preserving, no Unicode decomposition), so unreadable content is only reachable through the uid-switched variant; ignore decisions are scripted (pattern semantics are C14/C15).",
             "text": "Random real directory trees (files up to 200 kB, all mode bits, portable and non-portable links, FIFOs, non-UTF-8 names, temporary-prefixed names, file and missing roots) are scanned under every symlink and permissions mode and both hashers with a scripted ignore set; snapshot content, the four counters and the digest cache must equal what an independent walk of the same tree computes."},
+    "C13": {"level": "exploration", "steps": [step("./c13_accel/", shards={"thorough": 8}, timeout={"quick": 600, "thorough": 3600})],
+            "technique": "stateful property-based testing (rapid) on a real filesystem; differential accelerated-vs-cold scan, chained",
+            "note": "Trusted: the cold scan as reference (itself judged by C12); edits report every created/deleted/modified path incl. descendants, and content edits always change size, mtime or inode, as the statement's precondition requires.",
+            "text": "Random trees with Mutagen- or Docker-syntax ignores go through 3-10 steps of edit batches; after each step the accelerated scan (baseline + recheck paths + digest and ignore caches from the previous accelerated scan) must equal a cold scan in content, flags, counters and digest cache, and never fail."},
     "C06": {"level": "exploration", "steps": RECONCILE(), "technique": PBT, "note": TREE_NOTE,
             "text": "Same enumeration: no two actions on equal or nested paths, every action sits at a first disagreement found by an independent walker, conflicts have changes on both sides within their root."},
 }
